@@ -56,7 +56,10 @@ def gen(rng, i, tier):
         else:
             ops.append(["extradata", rng.randrange(4), [G.rand_value(rng) for _ in range(rng.choice([0, 1, 2]))]])
             if rng.random() < 0.3:
-                ops.append(rng.choice([["extradata", rng.randrange(4), [], "keep the empty list"], ["extrapop", rng.randrange(4)], ["extrapop", rng.randrange(4)]]))
+                ops.append(rng.choice([["extradata", rng.randrange(4), [], "keep the empty list"], ["extrapop", rng.randrange(4)], ["extrapop", rng.randrange(4)],
+                                       ["extraappend", rng.randrange(4), G.rand_value(rng)]]))
+        if rng.random() < 0.03:
+            ops.append(["extraappend", rng.randrange(4), G.rand_value(rng)])
         if rng.random() < 0.08:
             if rng.random() < 0.5:
                 ops.append(["ser"])
@@ -129,6 +132,12 @@ def build(c):
                 ex = sf.charts[op[1]].extradata
                 if ex:
                     ex.pop()
+            elif op[0] == "extraappend":            # extend whatever list of extra components the chart has, in place; start one when it has none
+                ex = sf.charts[op[1]].extradata
+                if ex is None:
+                    sf.charts[op[1]].extradata = [op[2]]
+                else:
+                    ex.append(op[2])
         except (KeyError, IndexError):
             pass
     return sf
